@@ -23,6 +23,8 @@ func init() {
 }
 
 func runC15(w *World, c *Check) {
+	c.Rule("C15.stateless", "parsing a credentials cache touches no package-level state (on this tree: the package keeps none): what one parse reads — byte order, cursor, version — cannot be changed by another parse running beside it", 2)
+	ruleStatelessIn(w, c, "C15.stateless", "credentials", "a credentials-cache function")
 	c.Rule("C15.layout", "the ccache reader follows the MIT format field by field for versions 1–4 and stores each value into the field the format names", 40)
 	c.Rule("C15.endian", "native byte order for versions 1 and 2, big-endian for 3 and 4", 1)
 	c.Rule("C15.accessors", "look-up by server principal; configuration entries (X-CACHECONF) filtered; client identity from the default principal", 5)
@@ -161,6 +163,59 @@ func runC15(w *World, c *Check) {
 			}
 		}
 		c.Decide(nReads >= 2 && bad == "", "C15.layout", FuncKey(fn), "header-fields-zero-or-more", w.Pos(fn.Pos()), "the header field loop can end before reading a field (a header with no fields is valid)", fmt.Sprintf("%d field reads in a loop; the read at %s is not preceded by a test that can leave the loop: a header without fields swallows the bytes that follow it", nReads, bad))
+	}
+
+	// ---- the full list: every credential that parses is kept ---------------------------------
+	if fn := w.Func("credentials.(*CCache).Unmarshal"); fn != nil {
+		fa := NewFuncAnRaw(w, fn)
+		calls := fa.Calls(`credentials\.parseCredential`)
+		var keep []*ssa.Store
+		for _, st := range fa.storesTo(`recv\.Credentials`) {
+			if strings.HasPrefix(fa.R.R(st.Val), "append("+fa.R.R(st.Addr)+", ") {
+				keep = append(keep, st)
+			}
+		}
+		ok, why := len(calls) == 1 && len(keep) >= 1, fmt.Sprintf("%d parseCredential calls, %d appends to the receiver's Credentials", len(calls), len(keep))
+		if ok {
+			call := calls[0].(*ssa.Call)
+			hdr := loopHeaderOf(call.Block())
+			nilEdges, _ := nilTestEdges(fa, errExtract(call, call.Call.Signature().Results().Len()-1))
+			if hdr == nil || len(nilEdges) == 0 {
+				ok, why = false, "parseCredential is not called in a loop whose body tests its error"
+			} else {
+				tb := map[*ssa.BasicBlock]bool{hdr: true}
+				for _, e := range nilEdges {
+					// from "this credential parsed" back to the loop head (or out of the function)
+					// without passing an append: the credential is dropped
+					seen := map[*ssa.BasicBlock]bool{}
+					var walk func(b *ssa.BasicBlock) bool
+					walk = func(b *ssa.BasicBlock) bool {
+						if seen[b] {
+							return false
+						}
+						seen[b] = true
+						for _, st := range keep {
+							if st.Block() == b {
+								return false
+							}
+						}
+						if tb[b] || len(b.Succs) == 0 {
+							return true
+						}
+						for _, sx := range b.Succs {
+							if walk(sx) {
+								return true
+							}
+						}
+						return false
+					}
+					if walk(e.To()) {
+						ok, why = false, "from the edge on which parseCredential succeeded the loop continues (or the function returns) without appending the credential: an entry of the file is left out of the list"
+					}
+				}
+			}
+		}
+		c.Decide(ok, "C15.layout", FuncKey(fn), "every-credential-kept", w.Pos(fn.Pos()), "every credential that parses is appended to the list (the list is the file's, whatever the entries' times, flags or names)", why)
 	}
 
 	// ---- byte order ---------------------------------------------------------------------
